@@ -155,7 +155,7 @@ func trustedResourceURLFormat(format string, args map[string]string) (TrustedRes
 		// segments or URL components.
 		return safehtmlutil.QueryEscapeURL(argVal)
 	})
-	if err == nil && safehtmlutil.URLContainsDoubleDotSegment(ret) && !safehtmlutil.URLContainsDoubleDotSegment(format) {
+	if err == nil && dotDotSegmentPattern.MatchString(ret) && !dotDotSegmentPattern.MatchString(format) {
 		// Arguments that are harmless on their own can still form the ".." dot-segment together
 		// with their neighbours, e.g. "." next to "." or "e." after "%2".
 		return TrustedResourceURL{}, fmt.Errorf(`arguments for format string %q must not form ".." with adjacent text`, format)
@@ -188,6 +188,12 @@ func startsWithTwoSlashes(s string) bool {
 	}
 	return false
 }
+
+// dotDotSegmentPattern matches URLs that have ".." as a complete path segment (RFC 3986
+// Section 3.3), in its percent-encoded or unencoded form. Unlike
+// safehtmlutil.URLContainsDoubleDotSegment it does not match two dots inside a longer segment
+// such as "app..js".
+var dotDotSegmentPattern = regexp.MustCompile(`(?i)(?:^|[/\\])(?:\.|%2e)(?:\.|%2e)(?:$|[/\\?#])`)
 
 // trustedResourceURLFormatMarkerPattern matches markers in TrustedResourceURLFormat
 // format strings.
@@ -228,7 +234,7 @@ func TrustedResourceURLAppend(t TrustedResourceURL, s string) (TrustedResourceUR
 		return TrustedResourceURL{}, fmt.Errorf(`cannot append %q to TrustedResourceURL %q: the appended string must not contain ".."`, s, t)
 	}
 	ret := t.str + safehtmlutil.QueryEscapeURL(s)
-	if safehtmlutil.URLContainsDoubleDotSegment(ret) && !safehtmlutil.URLContainsDoubleDotSegment(t.str) {
+	if dotDotSegmentPattern.MatchString(ret) && !dotDotSegmentPattern.MatchString(t.str) {
 		// A "." appended to a URL that ends in "." or "%2e" forms the ".." dot-segment.
 		return TrustedResourceURL{}, fmt.Errorf(`cannot append %q to TrustedResourceURL %q: the result must not contain ".."`, s, t)
 	}
